@@ -298,6 +298,8 @@ def systematic():
     for i, src in enumerate(progs.STATEMENT_PROGRAMS):
         out.append(("form:st", src))
     out += ifself_programs()
+    out += forelse_programs()
+    out += matrix_row_programs()
     return out
 
 
@@ -359,6 +361,49 @@ FORMS = [
     ("folded-const", "def fm_50(a: Qint[2]) -> Qint[4]:\n\treturn (a ^ a) * a + (a >> 3) * 3"),
     ("else-if", "def fm_47(a: Qint[2], c: bool, d: bool) -> Qint[2]:\n\tr = a\n\tif c:\n\t\tr = 1\n\telse:\n\t\tr = 2\n\treturn r + (1 if d else 0)"),
 ]
+
+# ---- `for … else` (no `break` in the subset: the else suite runs once, after the last iteration; repaired 67bd58c) -----
+FORELSE_FORMS = [
+    ("list", "def fe_0(r: Qint[2]) -> Qint[2]:\n\tfor i in [1, 2]:\n\t\tr += i\n\telse:\n\t\tr = 0\n\treturn r"),
+    ("empty-range", "def fe_1(r: Qint[2]) -> Qint[2]:\n\tfor i in range(0):\n\t\tr += 1\n\telse:\n\t\tr = r ^ 3\n\treturn r"),
+    ("reads-loop-var", "def fe_2(a: Qint[2]) -> Qint[4]:\n\ts = a\n\tfor i in range(3):\n\t\ts = s + i\n\telse:\n\t\ts = s ^ i\n"
+                       "\treturn s"),
+    ("nested", "def fe_3(a: Qint[2]) -> Qint[4]:\n\ts = a\n\tfor i in (1, 2):\n\t\tfor j in range(i):\n\t\t\ts += j\n\t\telse:\n"
+               "\t\t\ts = s + i\n\telse:\n\t\ts = s ^ 1\n\treturn s"),
+    ("if-inside", "def fe_4(a: Qint[2], c: bool) -> Qint[2]:\n\tr = a\n\tfor i in range(2):\n\t\tr = r + i\n\telse:\n\t\tif c:\n"
+                  "\t\t\tc = False\n\t\t\tr = r + 1\n\t\telse:\n\t\t\tr = r ^ 2\n\treturn r"),
+    ("tuple-arg", "def fe_5(t: Tuple[Qint[2], Qint[2]]) -> Qint[2]:\n\tr = 0\n\tfor v in t:\n\t\tr ^= v\n\telse:\n\t\tr = r + 1\n"
+                  "\treturn r"),
+    ("bool-ret", "def fe_6(a: bool, b: bool) -> bool:\n\tr = a\n\tfor v in (True, False):\n\t\tr = r ^ v\n\telse:\n\t\tr = r and b\n"
+                 "\treturn r"),
+    ("second-loop", "def fe_7(a: Qint[2]) -> Qint[4]:\n\ts = a\n\tfor i in range(2):\n\t\ts += 1\n\telse:\n\t\tfor j in range(2):\n"
+                    "\t\t\ts += j\n\treturn s"),
+]
+
+
+def forelse_programs():
+    return [("forelse:" + n, src) for n, src in FORELSE_FORMS]
+
+
+# ---- loops / len / sum / any / all over a row `m[c]` of a matrix that need not be square (repaired 91ca3b4) --------------
+def matrix_row_programs():
+    out, k = [], 0
+    for n, m in ((2, 3), (3, 2), (1, 3), (3, 1)):
+        for c in sorted({0, n - 1}):
+            bm = f"m: Qmatrix[bool, {n}, {m}]"
+            out.append((f"matrow:loop:{n}x{m}", f"def mr_{k}({bm}) -> Qint[2]:\n\tc = 0\n\tfor x in m[{c}]:\n"
+                                                f"\t\tc = c + 1 if x else c\n\treturn c"))
+            k += 1
+            out.append((f"matrow:len:{n}x{m}", f"def mr_{k}({bm}) -> Qint[2]:\n\treturn len(m[{c}])"))
+            k += 1
+            out.append((f"matrow:any:{n}x{m}", f"def mr_{k}({bm}) -> bool:\n\treturn any(m[{c}])"))
+            k += 1
+            out.append((f"matrow:all:{n}x{m}", f"def mr_{k}({bm}) -> bool:\n\treturn all(m[{c}])"))
+            k += 1
+            out.append((f"matrow:sum:{n}x{m}", f"def mr_{k}(m: Qmatrix[Qint[2], {n}, {m}]) -> Qint[4]:\n\treturn sum(m[{c}])"))
+            k += 1
+    return out
+
 
 # ---- if statements whose test reads a variable that a branch re-assigns ---------------------------------
 # Python evaluates the test of an `if` once, then runs every statement of the chosen branch: a branch that
